@@ -321,8 +321,17 @@ func (c *Ctx) Branch(cond *sym.Term) bool {
 	}
 	r := c.branch(cond)
 	c.learn(cond, r)
+	if branchLog {
+		txt := sym.Print(cond)
+		if len(txt) > 300 {
+			txt = txt[:300]
+		}
+		fmt.Fprintf(os.Stderr, "BRANCH #%d %v d=%d %s\n", len(c.decisions), r, c.decisions[len(c.decisions)-1], txt)
+	}
 	return r
 }
+
+var branchLog = os.Getenv("VERIF_BRANCH_LOG") != ""
 
 func (c *Ctx) branch(cond *sym.Term) bool {
 	c.symbolicP = true
@@ -330,6 +339,7 @@ func (c *Ctx) branch(cond *sym.Term) bool {
 		d := c.prefix[c.pos]
 		c.pos++
 		c.decisions = append(c.decisions, d)
+		c.model = nil
 		switch d {
 		case dTrue:
 			c.Solver.Assert(cond)
@@ -456,6 +466,7 @@ func (c *Ctx) Choose(n int, conds []*sym.Term) int {
 			panic(abortPath{"internal", fmt.Sprintf("replay mismatch: %d-ary choice met decision %d", n, d)})
 		}
 		c.decisions = append(c.decisions, d)
+		c.model = nil
 		i := d - dChooseBase
 		if conds != nil {
 			c.Solver.Assert(conds[i])
@@ -524,6 +535,13 @@ func (c *Ctx) Assume(v value) {
 			return
 		}
 		c.learn(v.T, true)
+		if c.pos < len(c.prefix) {
+			// replaying a prefix: the path that queued it has shown this point feasible; the model
+			// is re-established once the prefix has been consumed (afterPrefix)
+			c.Solver.Assert(v.T)
+			c.model = nil
+			return
+		}
 		if side, have := c.evalModel(v.T); have && side {
 			c.Solver.Assert(v.T)
 			return
@@ -533,6 +551,27 @@ func (c *Ctx) Assume(v value) {
 			panic(abortPath{"assume", "assumption infeasible"})
 		} else if r == sym.Unknown {
 			c.UnknownFeas++
+		}
+	}
+}
+
+// Lemma adds a fact that another harness of the same check proves for all inputs (assume-guarantee).
+// It cannot make a feasible path infeasible, so no feasibility query is made; a lemma that is
+// concretely false on this path is reported like a failed assertion.
+func (c *Ctx) Lemma(label string, v value, site string) {
+	switch v := v.(type) {
+	case bool:
+		if !v {
+			c.Assert("lemma:"+label, false, site)
+		}
+	case *Sym:
+		if _, ok := c.lookupKnown(v.T); ok {
+			return
+		}
+		c.learn(v.T, true)
+		c.Solver.Assert(v.T)
+		if side, have := c.evalModel(v.T); !have || !side {
+			c.model = nil
 		}
 	}
 }
@@ -665,6 +704,15 @@ func (c *Ctx) Assert(label string, v value, site string) {
 		c.pathCex = append(c.pathCex, Cex{Label: label, Kind: "assert", Assignment: c.assignment(m), Decisions: append([]int(nil), c.decisions...), Site: site, Class: c.class})
 	case *Sym:
 		c.symbolicP = true
+		if c.pos < len(c.prefix) {
+			// replaying a prefix: the path that queued this prefix passed the same point under the
+			// same path condition and has checked (and reported) this obligation; like it, go on
+			// under the assumption that the assertion holds
+			c.asserts--
+			c.Obligations--
+			c.Assume(v)
+			return
+		}
 		neg := sym.Not(v.T)
 		if side, have := c.evalModel(v.T); have && !side {
 			// the current model already violates it
@@ -674,6 +722,12 @@ func (c *Ctx) Assert(label string, v value, site string) {
 			switch r {
 			case sym.Unsat:
 				c.Discharged++
+				// implied by the path condition: recording it keeps a replaying path (which does
+				// not repeat the query) in step with this one
+				if _, ok := c.lookupKnown(v.T); !ok {
+					c.learn(v.T, true)
+					c.Solver.Assert(v.T)
+				}
 				return
 			case sym.Sat:
 				c.pathCex = append(c.pathCex, Cex{Label: label, Kind: "assert", Assignment: c.assignment(m), Decisions: append([]int(nil), c.decisions...), Site: site, Class: c.class})
